@@ -389,6 +389,85 @@ func (hi *c01Hist) forgedLastLeaf(r *hx.Result, rng *hx.Rng, s uint64) error {
 	return nil
 }
 
+// attack template K5 ("lagging gap"): the trusted source s has a binary-linking lag > 1
+// (source.BlTxID < s-1). The forged target t = s+1 declares BlTxID = b with source.BlTxID < b < s and a tree whose
+// leaves source.BlTxID+1 .. b are a FORGED chain. VerifyDualProof checks that those leaves form some linear chain
+// included in the target tree (LinearAdvanceProof) ending in TargetBlTxAlh, but never connects them to the trusted
+// accumulated hash of s (which commits to the genuine alh of every earlier tx through PrevAlh).
+func (hi *c01Hist) laggingGapAttack(r *hx.Result, rng *hx.Rng, s uint64) error {
+	if s < 3 || s > hi.n {
+		return nil
+	}
+	src := hi.hdrs[s]
+	start := src.BlTxID
+	if start+1 >= s || start == 0 {
+		return nil // needs a lagging trusted source with a non-empty tree
+	}
+	b := start + 1 + uint64(rng.Intn(int(s-start-1))) // start < b < s
+	dir := hx.TempDir("c01k")
+	defer os.RemoveAll(dir)
+	t, err := ahtree.Open(filepath.Join(dir, "aht"), ahtree.DefaultOptions())
+	if err != nil {
+		return err
+	}
+	defer t.Close()
+	for k := uint64(1); k <= start; k++ {
+		a := hi.alhs[k]
+		t.Append(a[:])
+	}
+	// forged chain X_{start+1} .. X_b
+	xs := map[uint64][32]byte{}
+	inners := map[uint64][32]byte{}
+	var x [32]byte
+	copy(x[:], rng.Bytes(32))
+	xs[start+1] = x
+	for k := start + 2; k <= b; k++ {
+		var in [32]byte
+		copy(in[:], rng.Bytes(32))
+		inners[k] = in
+		bs := make([]byte, 8+64)
+		for i := 0; i < 8; i++ {
+			bs[i] = byte(k >> uint(56-8*i))
+		}
+		prev := xs[k-1]
+		copy(bs[8:], prev[:])
+		copy(bs[40:], in[:])
+		xs[k] = sha256.Sum256(bs)
+	}
+	var forgedRoot [32]byte
+	for k := start + 1; k <= b; k++ {
+		a := xs[k]
+		_, forgedRoot, _ = t.Append(a[:])
+	}
+	tgt := &store.TxHeader{ID: s + 1, Ts: src.Ts + 1, BlTxID: b, BlRoot: forgedRoot, PrevAlh: hi.alhs[s], Version: src.Version,
+		NEntries: 1, Eh: sha256.Sum256([]byte("forged"))}
+	ta := tgt.Alh()
+	cp, err := t.ConsistencyProof(start, b)
+	if err != nil {
+		return err
+	}
+	lip, err := t.InclusionProof(b, b)
+	if err != nil {
+		return err
+	}
+	p := &store.DualProof{SourceTxHeader: src, TargetTxHeader: tgt, ConsistencyProof: cp, TargetBlTxAlh: xs[b], LastInclusionProof: lip,
+		LinearProof: &store.LinearProof{SourceTxID: s, TargetTxID: s + 1, Terms: [][32]byte{hi.alhs[s], innerOf(tgt)}}}
+	if b > start+1 {
+		lap := &store.LinearAdvanceProof{LinearProofTerms: [][32]byte{xs[start+1]}}
+		for k := start + 1; k < b; k++ {
+			ip, err := t.InclusionProof(k, b)
+			if err != nil {
+				return err
+			}
+			lap.InclusionProofs = append(lap.InclusionProofs, ip)
+			lap.LinearProofTerms = append(lap.LinearProofTerms, inners[k+1])
+		}
+		p.LinearAdvanceProof = lap
+	}
+	hi.probeDual(r, p, s, s+1, hi.alhs[s], ta, "attack-k5-lagging-gap")
+	return nil
+}
+
 // innerHash is unexported: recompute it from Alh's definition is impossible, so derive it via the layout
 // (ts, version, [mdlen, md], nentries, eh, blTxID, blRoot) – same bytes as tx.go innerHash.
 func innerOf(h *store.TxHeader) [32]byte {
@@ -616,6 +695,9 @@ func c01Probe(r *hx.Result, rng *hx.Rng, st *store.ImmuStore, n int, allPairs bo
 		}
 		if rng.Chance(35) {
 			if err := hi.forgedLastLeaf(r, rng, pr.s); err != nil {
+				return err
+			}
+			if err := hi.laggingGapAttack(r, rng, pr.s); err != nil {
 				return err
 			}
 		}
